@@ -15,8 +15,10 @@
 \*                 time | qp (qpos qvel act) | hist (history) | plug (plugin_state) | warm (qacc_warmstart)
 \*                 | ctrl | app (qfrc_applied xfrc_applied) | aux (eq_active mocap_pos mocap_quat userdata)
 \*   der[d][c]   provenance of derived data: pv (position/velocity stage arrays, contacts, efc rows, energy),
-\*               acc (constraint forces, sensors of the acceleration stage), qacc (qacc and the smooth-dynamics
-\*               arrays written with it; an INPUT of inverse dynamics), inv (qfrc_inverse)
+\*               acc (constraint forces), qacc (an INPUT of inverse dynamics, which the caller may also write),
+\*               sm (smooth-dynamics and actuator-force arrays written together with qacc by forward dynamics),
+\*               sx (what the acceleration-stage sensors were computed from: in inverse dynamics they also read
+\*               the stored actuator forces), inv (qfrc_inverse)
 \*   pvk[d]      which position stage produced pv: none | full (forward/step/step1) | inv (mj_inverse: no islands)
 \*   hid[d]      sleeping enabled only: hidden sleep state (tree_asleep countdowns, latent data of sleeping trees);
 \*               0 = every tree fully awake (the state of a fresh mjData).  It is not part of any state signature:
@@ -41,7 +43,8 @@ Inst   == 1..NI
 Groups == {"time", "qp", "hist", "plug", "warm", "ctrl", "app", "aux"}
 StepGroups == {"time", "qp", "hist", "plug", "warm"}       \* what time integration writes
 UserGroups == Groups \ {"hist"}                             \* what the caller writes directly
-DerClasses == {"pv", "acc", "qacc", "inv"}
+DerClasses == {"pv", "acc", "qacc", "sm", "sx", "inv"}
+FieldClasses == DerClasses \ {"sx"}          \* sx has no fields of its own: it only conditions the claim on sensordata
 SigOf(s) == CASE s = "INTEGRATION" -> Groups
               [] s = "FULLPHYSICS" -> {"time", "qp", "hist", "plug"}
               [] s = "PHYSICS"     -> {"qp", "hist"}
@@ -50,7 +53,7 @@ SigOf(s) == CASE s = "INTEGRATION" -> Groups
               [] s = "WARM"        -> {"warm"}
               [] s = "CTRL"        -> {"ctrl"}
               [] s = "QPT"         -> {"time", "qp"}
-Kinds == {"make", "reset", "copydata", "copystate", "getstate", "setstate", "setinput", "setall",
+Kinds == {"make", "reset", "copydata", "copystate", "getstate", "setstate", "setinput", "setall", "setqacc",
           "forward", "inverse", "step", "step1", "step2"}
 
 VARIABLES ist, der, pvk, hid,
@@ -72,23 +75,26 @@ CallKinds == {"forward", "inverse", "step", "step1", "step2"}
 
 \* ---- hash-consing ---------------------------------------------------------------------------------------
 DefRec(k, d, x) == [k |-> k, i |-> ist[d], x |-> x, h |-> IF SleepOn THEN hid[d] ELSE 0]
-Idx(r) == IF \E j \in 1..Len(defs) : defs[j] = r
-          THEN CHOOSE j \in 1..Len(defs) : defs[j] = r
-          ELSE Len(defs) + 1
+IdxIn(F, r) == IF \E j \in 1..Len(F) : F[j] = r
+               THEN CHOOSE j \in 1..Len(F) : F[j] = r
+               ELSE Len(F) + 1
+InternIn(F, r) == IF IdxIn(F, r) > Len(F) THEN Append(F, r) ELSE F
+Idx(r) == IdxIn(defs, r)
 Id(r) == 99 + Idx(r)
-Intern(r) == IF Idx(r) > Len(defs) THEN Append(defs, r) ELSE defs
+Intern(r) == InternIn(defs, r)
+NoX == <<0, 0>>                 \* the extra inputs of a call are a pair (qacc, sm) resp. (pv, 0)
 
 \* ---- observation ----------------------------------------------------------------------------------------
 \* efc_force / efc_state live in the arena: the position stage reallocates them (content undefined) and the
 \* acceleration stage fills them, so they are defined only if the acceleration stage ran on this position stage
 EfcValid(D, F, a) == \/ D[a].acc = D[a].pv
-                     \/ (D[a].acc >= 100 /\ F[D[a].acc - 99].k = "s2" /\ F[D[a].acc - 99].x = D[a].pv)
+                     \/ (D[a].acc >= 100 /\ F[D[a].acc - 99].k = "s2" /\ F[D[a].acc - 99].x[1] = D[a].pv)
 IsZero(I, D, H, a) == /\ I[a] = ZeroIst /\ D[a] = ZeroDer /\ H[a] = 0
 \* (the values are passed one by one: a record of all of them would be rebuilt by TLC at every reference)
 EqClasses(I, D, T, F, a, b) ==
      {g \in Groups : I[a][g] = I[b][g]}
-  \cup {c \in DerClasses : D[a][c] = D[b][c]}
-  \cup (IF D[a].pv = D[b].pv /\ D[a].acc = D[b].acc
+  \cup {c \in FieldClasses : D[a][c] = D[b][c]}
+  \cup (IF D[a].pv = D[b].pv /\ D[a].acc = D[b].acc /\ D[a].sx = D[b].sx
         THEN {"sens"} \cup (IF EfcValid(D, F, a) /\ EfcValid(D, F, b) THEN {"efc"} ELSE {}) ELSE {})
   \cup (IF <<a, b>> \in T THEN {"all"} ELSE {})
 \* instance 0 is the pristine reference the harness keeps per model (never touched after mj_makeData)
@@ -120,7 +126,8 @@ Ev(op, a, b, sig, g, k, fa) ==
      ELSE IF Scenario /\ SyncPair(op, a, b, sig)[1] # 0
           THEN LET p == SyncPair(op, a, b, sig) IN
                \E c \in {x \in CallKinds : x = "step2" => (pvk'[p[1]] = "full" /\ pvk'[p[2]] = "full")} :
-                  plan' = <<<<c, p[1]>>, <<c, p[2]>>>>
+                  plan' = (IF c = "inverse" THEN <<<<"setqacc", p[1]>>, <<"setqacc", p[2]>>>> ELSE <<>>)   \* same qacc input
+                          \o <<<<c, p[1]>>, <<c, p[2]>>>>
           ELSE plan' = <<>>
   /\ twin' = IF op = "copydata"
              THEN Untwin(a) \cup {<<a, b>>, <<b, a>>} \cup {<<a, c>> : c \in {x \in Inst \ {a} : <<b, x>> \in twin}}
@@ -177,34 +184,42 @@ SetAll(a, k) ==
   /\ ist' = [ist EXCEPT ![a] = [g \in Groups |-> IF g \in UserGroups THEN k ELSE ist[a][g]]]
   /\ UNCHANGED <<der, pvk, hid, defs, buf>> /\ Ev("setall", a, 0, "", "", k, TRUE)
 
+\* the caller writes pattern k into qacc (the input of inverse dynamics)
+SetQacc(a, k) ==
+  /\ Tick("setqacc") /\ (plan # <<>> => k = 1)
+  /\ der' = [der EXCEPT ![a].qacc = k]
+  /\ UNCHANGED <<ist, pvk, hid, defs, buf>> /\ Ev("setqacc", a, 0, "", "", k, TRUE)
+
 \* ---- pipeline calls: functions of what they read ---------------------------------------------------------
 Hid(a, id, fa) == IF SleepOn THEN [hid EXCEPT ![a] = IF fa THEN 0 ELSE id] ELSE hid
 Forward(a, fa) ==
   /\ Tick("forward")
-  /\ LET r == DefRec("fwd", a, 0)  id == Id(r) IN
+  /\ LET r == DefRec("fwd", a, NoX)  id == Id(r) IN
      /\ defs' = Intern(r)
-     /\ der' = [der EXCEPT ![a] = [pv |-> id, acc |-> id, qacc |-> id, inv |-> der[a].inv]]
+     /\ der' = [der EXCEPT ![a] = [pv |-> id, acc |-> id, qacc |-> id, sm |-> id, sx |-> id, inv |-> der[a].inv]]
      /\ pvk' = [pvk EXCEPT ![a] = "full"] /\ hid' = Hid(a, id, fa)
      /\ UNCHANGED <<ist, buf>> /\ Ev("forward", a, 0, "", "", 0, fa)
-\* inverse dynamics reads qacc as an input and leaves it alone
+\* inverse dynamics reads qacc as an input and leaves it alone; its acceleration-stage sensors also read the
+\* stored actuator forces (class sm), which it does not compute
 Inverse(a, fa) ==
   /\ Tick("inverse")
-  /\ LET r == DefRec("inv", a, der[a].qacc)  id == Id(r) IN
-     /\ defs' = Intern(r)
-     /\ der' = [der EXCEPT ![a] = [pv |-> id, acc |-> id, qacc |-> der[a].qacc, inv |-> id]]
+  /\ LET r == DefRec("inv", a, <<der[a].qacc, 0>>)  id == Id(r)
+         r2 == DefRec("invs", a, <<der[a].qacc, der[a].sm>>)  id2 == 99 + IdxIn(Intern(r), r2) IN
+     /\ defs' = InternIn(Intern(r), r2)
+     /\ der' = [der EXCEPT ![a] = [pv |-> id, acc |-> id, qacc |-> der[a].qacc, sm |-> der[a].sm, sx |-> id2, inv |-> id]]
      /\ pvk' = [pvk EXCEPT ![a] = "inv"] /\ hid' = Hid(a, id, fa)
      /\ UNCHANGED <<ist, buf>> /\ Ev("inverse", a, 0, "", "", 0, fa)
 Step(a, fa) ==
   /\ Tick("step")
-  /\ LET r == DefRec("step", a, 0)  id == Id(r) IN
+  /\ LET r == DefRec("step", a, NoX)  id == Id(r) IN
      /\ defs' = Intern(r)
      /\ ist' = [ist EXCEPT ![a] = [g \in Groups |-> IF g \in StepGroups THEN id ELSE ist[a][g]]]
-     /\ der' = [der EXCEPT ![a] = [pv |-> id, acc |-> id, qacc |-> id, inv |-> der[a].inv]]
+     /\ der' = [der EXCEPT ![a] = [pv |-> id, acc |-> id, qacc |-> id, sm |-> id, sx |-> id, inv |-> der[a].inv]]
      /\ pvk' = [pvk EXCEPT ![a] = "full"] /\ hid' = Hid(a, id, fa)
      /\ UNCHANGED buf /\ Ev("step", a, 0, "", "", 0, fa)
 Step1(a, fa) ==
   /\ Tick("step1")
-  /\ LET r == DefRec("s1", a, 0)  id == Id(r) IN
+  /\ LET r == DefRec("s1", a, NoX)  id == Id(r) IN
      /\ defs' = Intern(r)
      /\ der' = [der EXCEPT ![a].pv = id]
      /\ pvk' = [pvk EXCEPT ![a] = "full"] /\ hid' = Hid(a, id, fa)
@@ -212,10 +227,10 @@ Step1(a, fa) ==
 \* mj_step2 reads the position/velocity stage data left in the instance: a hidden input unless mj_step1 came first
 Step2(a, fa) ==
   /\ Tick("step2") /\ pvk[a] = "full"
-  /\ LET r == DefRec("s2", a, der[a].pv)  id == Id(r) IN
+  /\ LET r == DefRec("s2", a, <<der[a].pv, 0>>)  id == Id(r) IN
      /\ defs' = Intern(r)
      /\ ist' = [ist EXCEPT ![a] = [g \in Groups |-> IF g \in StepGroups THEN id ELSE ist[a][g]]]
-     /\ der' = [der EXCEPT ![a].acc = id, ![a].qacc = id]
+     /\ der' = [der EXCEPT ![a].acc = id, ![a].qacc = id, ![a].sm = id, ![a].sx = id]
      /\ hid' = Hid(a, id, fa)
      /\ UNCHANGED <<pvk, buf>> /\ Ev("step2", a, 0, "", "", 0, fa)
 
@@ -227,7 +242,7 @@ Next ==
   \/ \E a, b \in Inst, s \in SigNames : CopyState(a, b, s)
   \/ \E a \in Inst, s \in SigNames : GetState(a, s)
   \/ \E a \in Inst, g \in UserGroups, k \in 1..NPat : SetInput(a, g, k)
-  \/ \E a \in Inst, k \in 1..NPat : SetAll(a, k)
+  \/ \E a \in Inst, k \in 1..NPat : SetAll(a, k) \/ SetQacc(a, k)
   \/ \E a \in Inst, fa \in FAs : Forward(a, fa) \/ Inverse(a, fa) \/ Step(a, fa) \/ Step1(a, fa) \/ Step2(a, fa)
 Spec == Init /\ [][Next]_vars
 
@@ -245,11 +260,11 @@ DefsInjective == \A i, j \in 1..Len(defs) : defs[i] = defs[j] => i = j
 SameInputs(a, b) == ist[a] = ist[b] /\ (SleepOn /\ Caveat => hid[a] = hid[b])
 Determinism ==
   \A a, b \in Inst : (a < b /\ SameInputs(a, b)) =>
-     /\ Id(DefRec("fwd", a, 0)) = Id(DefRec("fwd", b, 0))
-     /\ Id(DefRec("step", a, 0)) = Id(DefRec("step", b, 0))
-     /\ Id(DefRec("s1", a, 0)) = Id(DefRec("s1", b, 0))
-     /\ (der[a].qacc = der[b].qacc => Id(DefRec("inv", a, der[a].qacc)) = Id(DefRec("inv", b, der[b].qacc)))
-     /\ (der[a].pv = der[b].pv => Id(DefRec("s2", a, der[a].pv)) = Id(DefRec("s2", b, der[b].pv)))
+     /\ Id(DefRec("fwd", a, NoX)) = Id(DefRec("fwd", b, NoX))
+     /\ Id(DefRec("step", a, NoX)) = Id(DefRec("step", b, NoX))
+     /\ Id(DefRec("s1", a, NoX)) = Id(DefRec("s1", b, NoX))
+     /\ (der[a].qacc = der[b].qacc => Id(DefRec("inv", a, <<der[a].qacc, 0>>)) = Id(DefRec("inv", b, <<der[b].qacc, 0>>)))
+     /\ (der[a].pv = der[b].pv => Id(DefRec("s2", a, <<der[a].pv, 0>>)) = Id(DefRec("s2", b, <<der[b].pv, 0>>)))
 \* which signatures give the destination the integration state of the source (GoodSigs = {"INTEGRATION"} holds; the
 \* negative configuration shows that INTEGRATION without the warm start does not).  With sleeping enabled equal
 \* integration state is not enough for Determinism unless the hidden sleep state agrees (configuration NegSleep).
